@@ -307,6 +307,36 @@ def build_cases(ctx):
     return cases, perm_max, nperm
 
 
+# ---------------------------------------------------------------------------------------------
+# two-step histories: the weights must not depend on an earlier call (same offsets, other order, ...)
+
+def history_cases():
+    nodes = [np.array([-2.0, -1.0, 0.0, 1.0, 2.0]), np.array([0.5, 2.0, -1.0, 0.25, 1.25, -0.75])]
+    out = []
+    for ni in range(len(nodes)):
+        for x0 in (0.0, 0.3):
+            for n in (1, 2, 4):
+                for fn in ('all', 'one'):
+                    out.append((ni, x0, n, fn))
+    return nodes, out
+
+
+def history_run(case, shared):
+    from numdifftools.fornberg import fd_weights, fd_weights_all
+    nodes, _ = history_cases()
+    ni, x0, n, fn = case
+    try:
+        return fw.obs((fd_weights_all if fn == 'all' else fd_weights)(nodes[ni], x0, n))
+    except Exception as e:
+        return fw.obs(e)
+
+
+def work_history(chunk):
+    acc = fw.Acc()
+    fw.pair_histories(acc, 'C15', 'fd_weights-call-order', history_cases()[1], history_run)
+    return acc
+
+
 def run(ctx):
     cases, perm_max, nperm = build_cases(ctx)
     # deal the cases (most expensive first) over the chunks so that chunks have similar cost
@@ -315,6 +345,7 @@ def run(ctx):
     nchunks = -(-len(by_cost) // chunk)
     dealt = [c for i in range(nchunks) for c in by_cost[i::nchunks]]
     acc = ctx.pmap(work, dealt, chunk=chunk)
+    acc.merge(ctx.pmap(work_history, [0], chunk=1))
     for fam in FAMILIES[:6]:
         x = family(fam, 5)
         acc.sample(dict(family=fam, x=x, x0={k: x0_of(k, x) for k in X0KINDS}, n='0..4'))
@@ -350,6 +381,16 @@ def run(ctx):
 
 
 def replay(case):
+    if case.get('kind') == 'history':
+        cs = history_cases()[1]
+        a, b = cs[case['i']], cs[case['j']]
+        fw.fresh_library_state()
+        alone = history_run(b, {})
+        fw.fresh_library_state()
+        history_run(a, {})
+        got = history_run(b, {})
+        fw.fresh_library_state()
+        return got == alone, 'fd_weights %r then %r: %s' % (a, b, 'same' if got == alone else 'differs from the call alone')
     x = [float(v) for v in case['x']]
     x0 = float(case['x0'])
     n = int(case['n'])
